@@ -63,7 +63,11 @@ def _walk(ck: Checker) -> None:
     ck.floor("C02.walk", len(rows), 1, "row loop over the built files")
     rh = rows[0]
     ck.require(flows_from_calls(g, rh, rh.ast.iter.func.value, bcalls), "C02.walk", bt, rh, "rows are the result of _build_files for this root", "the rows added to the tree are not the result of _build_files for this walk step")
-    adds = [(n, c) for n in g.nodes.values() if rh.id in n.loops for c in calls_at(n) if is_method_call(c, "add") and norm(c.func.value) == "tree"]
+    # the tree being built: any local bound to a fresh Tree() (and its plain aliases)
+    tree_names = {"tree"} | {norm(n.ast.targets[0]) for n in g.nodes.values() if n.kind == "stmt" and isinstance(n.ast, ast.Assign) and isinstance(n.ast.targets[0], ast.Name) and isinstance(n.ast.value, ast.Call) and call_name(n.ast.value) == "Tree" and not n.ast.value.args}
+    for _ in range(2):
+        tree_names |= {norm(n.ast.targets[0]) for n in g.nodes.values() if n.kind == "stmt" and isinstance(n.ast, ast.Assign) and isinstance(n.ast.targets[0], ast.Name) and isinstance(n.ast.value, ast.Name) and n.ast.value.id in tree_names}
+    adds = [(n, c) for n in g.nodes.values() if rh.id in n.loops for c in calls_at(n) if is_method_call(c, "add") and norm(c.func.value) in tree_names]
     ck.floor("C02.walk", len(adds), 1, "tree.add in the row loop")
     an, ac = adds[0]
     r = g.reach([d for lab, d in rh.succ if lab == "T"], skip_node=lambda x: x.id == an.id, skip_edge=lambda a, l, b: l == "exc")
@@ -117,7 +121,7 @@ def _walk(ck: Checker) -> None:
     size_name = None
     for m in metas:
         kw = {k.arg: k.value for k in m.keywords}
-        ck.require(norm(kw["nfiles"]) == "len(tree)" and isinstance(kw["size"], ast.Name), "C02.meta", bt, m, "nfiles=len(tree), size=accumulated size", f"tree meta is {norm(m)}")
+        ck.require(norm(kw["nfiles"]) in {f"len({t_})" for t_ in tree_names} and isinstance(kw["size"], ast.Name), "C02.meta", bt, m, "nfiles=len(tree), size=accumulated size", f"tree meta is {norm(m)}")
         if isinstance(kw["size"], ast.Name):
             size_name = kw["size"].id
 
@@ -144,8 +148,8 @@ def _walk(ck: Checker) -> None:
     ok = size_name is not None and accumulates_rows(size_name)
     augs = [n for n in g.nodes.values() if n.kind == "stmt" and isinstance(n.ast, ast.AugAssign) and norm(n.ast.target) == (size_name or "size")]
     ck.require(ok, "C02.meta", bt, augs[0] if augs else bt.node, "total size accumulates every added file's size", "total size is not accumulated for every row added to the tree")
-    dg = [n for n in g.nodes.values() for c in calls_at(n) if is_method_call(c, "digest") and norm(c.func.value) == "tree"]
-    rets = [n for n in g.nodes.values() if n.kind == "stmt" and isinstance(n.ast, ast.Return) and not n.loops and any(isinstance(x, ast.Name) and x.id == "tree" for x in walk_expr(n.ast))]
+    dg = [n for n in g.nodes.values() for c in calls_at(n) if is_method_call(c, "digest") and norm(c.func.value) in tree_names]
+    rets = [n for n in g.nodes.values() if n.kind == "stmt" and isinstance(n.ast, ast.Return) and not n.loops and any(isinstance(x, ast.Name) and x.id in tree_names for x in walk_expr(n.ast))]
     for r_ in rets:
         if avoiding_path(g, r_.id, lambda x: x.id == wh.id) is None:
             ck.require(bool(dg) and avoiding_path(g, r_.id, lambda x: x.id in {d.id for d in dg}, start=wh.id) is None, "C02.meta", bt, r_, "the built tree is digested before it is returned", "a freshly built tree can be returned without digest()")
